@@ -403,6 +403,9 @@ fn run(ctx: &mut Ctx) {
     if ctx.shard == 6 % ctx.nshards {
         start_failure_history(ctx, "C09", ";");
     }
+    if ctx.shard == 7 % ctx.nshards {
+        low_descriptor_exec(ctx, "C09", ";");
+    }
     // slice 2f: -execdir on the root directory, however it is spelled, runs in the root directory
     if ctx.shard == 5 % ctx.nshards {
         let log = ctx.sbx.join(".mc-vrec.log");
@@ -594,6 +597,38 @@ pub fn start_failure_history(ctx: &mut Ctx, prop: &str, term: &str) {
     let _ = crate::sandbox::force_remove(&base);
 }
 
+/// 150 directories under RLIMIT_NOFILE = 64: `-execdir CMD {} ;` (C09) / `-execdir CMD {} +` and
+/// `-exec CMD {} +` (C08) run CMD for the file of every directory, in that directory.
+pub fn low_descriptor_exec(ctx: &mut Ctx, prop: &str, term: &str) {
+    use crate::props::lowfd;
+    let sbx = lowfd::build(ctx);
+    let log = sbx.join(".mc-vrec.log");
+    let vrec = crate::engine::self_bin_dir().join("vrec").display().to_string();
+    for prim in ["-execdir", "-exec"] {
+        let _ = std::fs::remove_file(&log);
+        let logs = log.display().to_string();
+        let args: Vec<&str> = vec!["lf", "-sorted", "-name", "f", prim, &vrec, &logs, "{}", term];
+        let o = lowfd::find(ctx, &args, 64, vec![]);
+        let recs = crate::vreclog::read(&log).unwrap_or_default();
+        ctx.rep.evaluations += 1;
+        ctx.rep.nontrivial += 1;
+        ctx.rep.count("low_descriptor_limit_cases", 1);
+        let delivered: Vec<(String, String)> = recs.iter().flat_map(|r| r.args.iter().map(|a| (String::from_utf8_lossy(&r.cwd).to_string(), String::from_utf8_lossy(a).to_string())).collect::<Vec<_>>()).collect();
+        let want: Vec<(String, String)> = (0..lowfd::NDIRS)
+            .map(|i| if prim == "-execdir" { (sbx.join(format!("lf/d{i:03}")).display().to_string(), "./f".to_string()) } else { (sbx.display().to_string(), format!("lf/d{i:03}/f")) })
+            .collect();
+        if o.died() || o.code != Some(0) || delivered != want {
+            let firstbad = delivered.iter().zip(&want).position(|(a, b)| a != b).unwrap_or(delivered.len().min(want.len()));
+            ctx.rep.violation(
+                &format!("{prop} {prim} ... {{}} {term} over 150 directories with 64 file descriptors: not every file got its run in the right directory"),
+                format!("find {:?} under RLIMIT_NOFILE=64: status {:?} signal {:?}; {} paths delivered, expected {}; first difference at #{firstbad}; stderr {:?}", args, o.code, o.signal, delivered.len(), want.len(), String::from_utf8_lossy(&o.err).lines().take(2).collect::<Vec<_>>()),
+                json!({"prop":prop,"low_descriptor":true}),
+            );
+        }
+    }
+    lowfd::remove(ctx);
+}
+
 fn nonutf8_slice(ctx: &mut Ctx, job: &mut u64) {
     let ns = names(0);
     let ts = templates(2);
@@ -621,6 +656,10 @@ fn nonutf8_slice(ctx: &mut Ctx, job: &mut u64) {
 fn replay(case: &Value, ctx: &mut Ctx) -> Option<String> {
     if case["path_lookup"] == true {
         path_lookup_slice(ctx);
+        return ctx.rep.violations.keys().next().cloned();
+    }
+    if case["low_descriptor"] == true {
+        low_descriptor_exec(ctx, "C09", ";");
         return ctx.rep.violations.keys().next().cloned();
     }
     if case["start_failure_history"] == true {
